@@ -62,12 +62,20 @@ def crate_enums():
 _cache = {}
 
 
+LOADED = []
+
+
 def load(generics=None, force=False):
     path, digest, secs = dump_mir(force)
     if digest not in _cache:
         _cache[digest] = parse_mir(open(path).read())
     fns = _cache[digest]
     ex = Executor(fns, BI.B, crate_enums(), generics or {})
+    # a symbolic float cast to an integer (the size-based shell count of check_intersection) is followed for
+    # these values; whatever lies outside is dropped and reported as a bound (ex.cast_dropped)
+    ex.int_cast_range = (0, 3)
+    ex.cast_dropped = []
+    LOADED.append(ex)
     ex.mir_digest = digest
     ex.mir_secs = secs
     return ex
